@@ -39,7 +39,9 @@ import (
 	"github.com/oxia-db/oxia/server/wal/codec"
 )
 
-const t0 = int64(1_700_000_000_000)
+// timestamps are fixed64 and come last in the marshalled entry: the high bytes must not be zero, otherwise
+// tearing off the last bytes of a record changes nothing
+const t0 = uint64(0x5a5b5c5d5e5f0101)
 
 var hangTimeout = 3 * time.Second
 
@@ -48,10 +50,10 @@ var hangTimeout = 3 * time.Second
 
 type damage struct {
 	Rec   int64  `json:"rec"`   // damaged record (offset), -1 = none
-	Field string `json:"field"` // none | size | prevcrc | crc | payload | splice
+	Field string `json:"field"` // none | size | prevcrc | crc | payload | record | splice
 	Cls   string `json:"cls"`   // value class (size: s0 s1 exact plus1 max31 ovf_lo ovf_at ovf_max; others: rand zero; splice: donor)
 	At    int64  `json:"at"`    // concretization: byte offset inside the field (payload) / donor record (splice)
-	Val   int64  `json:"val"`   // concretization: value written / xor mask
+	Val   string `json:"val"`   // concretization: value written (decimal; a string because it may exceed TLC's integers)
 }
 
 type outcome struct {
@@ -79,6 +81,7 @@ type image struct {
 	Dmg    damage   `json:"dmg"`
 	Post   []int64  `json:"post"` // sizes of entries appended after the recovery
 	Tear   []int64  `json:"tear"` // concretization: bytes kept of every torn record (-1 = chosen by seed)
+	RSeed  int64    `json:"rseed"` // concretization: seed of everything else that is chosen at random (0 = derived from -seed)
 	Exp    outcome  `json:"exp"`  // what the operational model of WalRecovery.tla computes (informative)
 	Obs    outcome  `json:"obs"`
 }
@@ -129,7 +132,7 @@ func value(id int64, l int) []byte {
 }
 
 func mkEntry(off, id, size int64) (*proto.LogEntry, error) {
-	e := &proto.LogEntry{Term: 1 + id%3, Offset: off, Timestamp: uint64(t0 + id)}
+	e := &proto.LogEntry{Term: 1 + id%3, Offset: off, Timestamp: t0 + uint64(id)}
 	for l := int(size); l >= 2; l-- {
 		e.Value = value(id, l)
 		n := pb.Size(e)
@@ -291,6 +294,12 @@ func getBase(im *image) (*base, error) {
 // ---------------------------------------------------------------------------------------------------
 // concretization: abstract image -> bytes
 
+func rawVal(s string) int64 {
+	var v int64
+	_, _ = fmt.Sscan(s, &v)
+	return v
+}
+
 var sizeClass = map[string]int64{"s0": 0, "s1": 1, "max31": 0x7FFFFFFF, "ovf_max": 0xFFFFFFFF}
 
 func exts(c string) (string, string) {
@@ -362,10 +371,15 @@ func concretize(im *image, b *base, rng *rand.Rand) (map[string][]byte, error) {
 		f := txn(i)
 		put32 := func(off int64, v uint32) { binary.BigEndian.PutUint32(f[r.pos+off:], v) }
 		get32 := func(off int64) uint32 { return binary.BigEndian.Uint32(f[r.pos+off:]) }
+		recorded := d.Val != "" && d.Val != "-"
 		switch d.Field {
 		case "size":
 			var v int64
-			switch d.Cls {
+			cls := d.Cls
+			if recorded {
+				cls = "raw"
+			}
+			switch cls {
 			case "exact":
 				v = r.size
 			case "plus1":
@@ -375,14 +389,33 @@ func concretize(im *image, b *base, rng *rand.Rand) (map[string][]byte, error) {
 			case "ovf_at": // smallest value for which size+header wraps to 0
 				v = 0x100000000 - h
 			case "raw":
-				v = d.Val
+				v = rawVal(d.Val) & 0xFFFFFFFF
+				// name the class of the raw value: it is what the specification reasons about
+				switch {
+				case v == 0:
+					im.Dmg.Cls = "s0"
+				case v == 1 && r.size != 1:
+					im.Dmg.Cls = "s1"
+				case v == r.size:
+					im.Dmg.Cls = "exact"
+				case v == r.size+1:
+					im.Dmg.Cls = "plus1"
+				case v == 0x100000000-h:
+					im.Dmg.Cls = "ovf_at"
+				case v > 0x100000000-h:
+					im.Dmg.Cls = "ovf_max"
+				case v > 0x7FFFFFFF:
+					im.Dmg.Cls = "ovf_lo"
+				default:
+					im.Dmg.Cls = "max31"
+				}
 			default:
 				var ok bool
 				if v, ok = sizeClass[d.Cls]; !ok {
 					return nil, fmt.Errorf("unknown size class %q", d.Cls)
 				}
 			}
-			im.Dmg.Val = v
+			im.Dmg.Val = fmt.Sprint(v)
 			put32(0, uint32(v))
 		case "prevcrc", "crc":
 			if im.Codec == "v1" {
@@ -394,39 +427,57 @@ func concretize(im *image, b *base, rng *rand.Rand) (map[string][]byte, error) {
 			}
 			old := get32(off)
 			var v uint32
-			switch d.Cls {
+			cls := d.Cls
+			if recorded {
+				cls = "raw"
+			}
+			switch cls {
 			case "zero":
 				v = 0
 			case "raw":
-				v = uint32(d.Val)
+				v = uint32(rawVal(d.Val))
+				if d.Cls == "raw" {
+					im.Dmg.Cls = "rand"
+				}
 			default:
 				v = old ^ (1 + uint32(rng.Int63n(0xFFFFFFFF)))
 			}
 			if v == old {
 				v = old ^ 0x10
 			}
-			im.Dmg.Val = int64(v)
+			im.Dmg.Val = fmt.Sprint(v)
 			put32(off, v)
 		case "payload":
 			at := d.At
-			if d.Cls != "raw" || at < 0 || at >= r.size {
+			if at < 0 || at >= r.size {
 				at = rng.Int63n(r.size)
 			}
 			p := r.pos + h + at
 			var v byte
-			switch d.Cls {
+			cls := d.Cls
+			if recorded {
+				cls = "raw"
+			}
+			switch cls {
 			case "zero":
 				v = 0
 			case "raw":
-				v = byte(d.Val)
+				v = byte(rawVal(d.Val))
+				if d.Cls == "raw" {
+					im.Dmg.Cls = "rand"
+				}
 			default:
 				v = f[p] ^ byte(1+rng.Intn(255))
 			}
 			if v == f[p] {
 				v ^= 0x04
 			}
-			im.Dmg.At, im.Dmg.Val = at, int64(v)
+			im.Dmg.At, im.Dmg.Val = at, fmt.Sprint(v)
 			f[p] = v
+		case "record": // the whole record is zeroed
+			for p := r.pos; p < r.pos+h+r.size; p++ {
+				f[p] = 0
+			}
 		case "splice": // the record is overwritten by another genuine record of the same size (misdirected write)
 			j := int(d.At)
 			if j < 0 || j >= n || j == i || b.recs[j].size != r.size {
@@ -616,6 +667,10 @@ func execute(im *image, seed int64) (hung bool, err error) {
 	if err != nil {
 		return false, err
 	}
+	if im.RSeed != 0 {
+		seed = im.RSeed
+	}
+	im.RSeed = seed
 	rng := rand.New(rand.NewSource(seed))
 	files, err := concretize(im, b, rng)
 	if err != nil {
@@ -741,6 +796,7 @@ func cmdRun(args []string) int {
 			continue
 		}
 		var im image
+		im.Dmg.At = -1
 		if err := json.Unmarshal(line, &im); err != nil {
 			fmt.Fprintln(os.Stderr, "bad image line:", err)
 			return 2
@@ -779,8 +835,14 @@ func normalize(im *image) {
 	if im.Post == nil {
 		im.Post = []int64{}
 	}
+	if im.Tear == nil {
+		im.Tear = []int64{}
+	}
 	if im.Dmg.Field == "" {
-		im.Dmg = damage{Rec: -1, Field: "none", Cls: "none"}
+		im.Dmg = damage{Rec: -1, Field: "none", Cls: "none", At: -1}
+	}
+	if im.Dmg.Val == "" {
+		im.Dmg.Val = "-"
 	}
 	for _, o := range []*outcome{&im.Exp, &im.Obs} {
 		if o.Ents == nil {
@@ -800,6 +862,15 @@ func normalize(im *image) {
 
 // ---------------------------------------------------------------------------------------------------
 // gen: random images beyond the enumerated domain
+
+// reachable avoids the few marshalled sizes that no value length produces (the length prefix of the value
+// grows from one to two bytes at 128; which size is skipped depends on the offset of the entry)
+func reachable(sz int64) int64 {
+	if sz >= 136 && sz <= 150 {
+		return 135
+	}
+	return sz
+}
 
 func cmdGen(args []string) int {
 	fs := flag.NewFlagSet("gen", flag.ExitOnError)
@@ -835,18 +906,10 @@ func cmdGen(args []string) int {
 			default:
 				sz = 24 + rng.Int63n(maxPayload-23)
 			}
-			if sz > 255 {
-				sz = 24 + rng.Int63n(232)
-			}
 			if sz > maxPayload {
 				sz = maxPayload
 			}
-			for {
-				if _, err := mkEntry(0, 1, sz); err == nil {
-					break
-				}
-				sz--
-			}
+			sz = reachable(sz)
 			im.Sizes = append(im.Sizes, sz)
 		}
 		recs, bases, err := layout(im.Sizes, h, im.Seg)
@@ -880,19 +943,23 @@ func cmdGen(args []string) int {
 		for s := 0; s < nseg-1; s++ {
 			im.Idx = append(im.Idx, idxStates[rng.Intn(len(idxStates))])
 		}
-		im.Dmg = damage{Rec: -1, Field: "none", Cls: "none"}
+		// the newest segment file may never have reached the disk when nothing in it was synced
+		if nseg > 1 && im.Synced == lo && rng.Intn(4) == 0 {
+			im.Lost = 1
+		}
+		im.Dmg = damage{Rec: -1, Field: "none", Cls: "none", At: -1}
 		if rng.Intn(3) > 0 {
 			// damage at an arbitrary byte of the used part of the log
 			var cands []int
 			for i := range recs {
-				if im.Rs[i] == "complete" {
+				if im.Rs[i] == "complete" && recs[i].seg < nseg-int(im.Lost) {
 					cands = append(cands, i)
 				}
 			}
 			if len(cands) > 0 {
 				i := cands[rng.Intn(len(cands))]
 				at := rng.Int63n(h + recs[i].size)
-				d := damage{Rec: int64(i), Cls: "raw"}
+				d := damage{Rec: int64(i), Cls: "raw", At: -1}
 				switch {
 				case at < 4:
 					d.Field = "size"
@@ -910,19 +977,31 @@ func cmdGen(args []string) int {
 					if rng.Intn(4) == 0 {
 						v = []uint32{0, 1, 0x7FFFFFFF, 0xFFFFFFFF - uint32(h), uint32(0x100000000 - h), 0xFFFFFFFF, uint32(recs[i].size) + 1, uint32(recs[i].size) - 1}[rng.Intn(8)]
 					}
-					d.Val = int64(v)
+					d.Val = fmt.Sprint(v)
 				case at < 8 && *cdc == "v2":
-					d.Field, d.Val = "prevcrc", rng.Int63n(1<<32)
+					d.Field, d.Val = "prevcrc", fmt.Sprint(rng.Int63n(1<<32))
 				case at < 12 && *cdc == "v2":
-					d.Field, d.Val = "crc", rng.Int63n(1<<32)
+					d.Field, d.Val = "crc", fmt.Sprint(rng.Int63n(1<<32))
 				default:
-					d.Field, d.At, d.Val = "payload", at-h, int64(rng.Intn(256))
+					d.Field, d.At, d.Val = "payload", at-h, fmt.Sprint(rng.Intn(256))
 					if rng.Intn(3) == 0 {
-						d.Val = 0
+						d.Val = "0"
 					}
 				}
 				if *cdc == "v1" && d.Field != "size" {
-					d = damage{Rec: -1, Field: "none", Cls: "none"}
+					d = damage{Rec: -1, Field: "none", Cls: "none", At: -1}
+				}
+				if *cdc == "v2" && rng.Intn(12) == 0 {
+					// a zeroed record / a record overwritten by another genuine record of the same size
+					d = damage{Rec: int64(i), Field: "record", Cls: "zero", At: -1}
+					if rng.Intn(2) == 0 {
+						for _, j := range rng.Perm(nrec) {
+							if j != i && recs[j].size == recs[i].size {
+								d = damage{Rec: int64(i), Field: "splice", Cls: "donor", At: int64(j)}
+								break
+							}
+						}
+					}
 				}
 				im.Dmg = d
 			}
@@ -935,12 +1014,9 @@ func cmdGen(args []string) int {
 				sz := im.Sizes[rng.Intn(nrec)]
 				if rng.Intn(3) == 0 {
 					sz = 24 + rng.Int63n(60)
-					for {
-						if _, err := mkEntry(0, 1, sz); err == nil {
-							break
-						}
-						sz--
-					}
+				}
+				if sz > im.Seg-12 { // a new segment is always written in format v2
+					sz = reachable(im.Seg - 12)
 				}
 				im.Post = append(im.Post, sz)
 			}
